@@ -14,6 +14,8 @@
 (*   Request          gevent.spawn(pool.AsyncProcessRequest, ...)          *)
 (*   OpenDone(c, ok)  the environment completes c's pending open           *)
 (*   Die(c)           the environment fails c: state Closed, on_faulted.Set*)
+(*   Respond(r, c)    the environment answers request r held in flight on  *)
+(*                    c; the response passes the pool's frame (_Release)   *)
 (*   RunTask          head of the FIFO run queue:                          *)
 (*     G g   start of greenlet g (AsyncResult.Run(TryGet) or a request):   *)
 (*           _Get from the top to its first yield or to completion         *)
@@ -33,23 +35,27 @@
 (***************************************************************************)
 EXTENDS ShareAbs
 
-CONSTANTS MaxOpen, MaxClose, MaxReq, MaxConn, MaxFail
+CONSTANTS MaxOpen, MaxClose, MaxReq, MaxConn, MaxFail,
+          EagerRelease   \* FALSE: _Release is a no-op (as in /repo).  TRUE: documented variant in
+                         \* which _Release(sink) drops the pool's CURRENT sink when `sink` is closed
 
-VARIABLES refc, next, conn, gl, runq, nopen, nclose, nfail, abs, viol
-ivars == <<refc, next, conn, gl, runq, nopen, nclose, nfail>>
+VARIABLES refc, next, conn, gl, runq, infl, nopen, nclose, nfail, abs, viol
+ivars == <<refc, next, conn, gl, runq, infl, nopen, nclose, nfail>>
 vars == <<ivars, abs, viol>>
 
 E(e, c, r, ok) == [e |-> e, c |-> c, r |-> r, ok |-> ok, h |-> 0, s |-> 0, k |-> 0]
 T(k, x) == [k |-> k, x |-> x]
 
-St == [refc |-> refc, next |-> next, conn |-> conn, gl |-> gl, runq |-> runq, evs |-> <<>>]
+\* infl: requests in flight on a connection (the mock holds them until Respond)
+St == [refc |-> refc, next |-> next, conn |-> conn, gl |-> gl, runq |-> runq, infl |-> infl, evs |-> <<>>]
 
 \* after _Get returned `ret` for greenlet g
 Finish(s, g) ==
   LET ret == s.next IN
   IF s.gl[g].kind = "tryget" THEN [s EXCEPT !.gl[g].pc = "done"]
   ELSE IF ret = 0 THEN [s EXCEPT !.gl[g].pc = "dead"]       \* None.AsyncProcessRequest
-  ELSE [s EXCEPT !.gl[g].pc = "done", !.evs = Append(@, E("Seen", ret, s.gl[g].r, TRUE))]
+  ELSE [s EXCEPT !.gl[g].pc = "done", !.infl = @ \cup {[r |-> s.gl[g].r, c |-> ret]},
+                 !.evs = Append(@, E("Seen", ret, s.gl[g].r, TRUE))]
 
 \* _Get from the top, for greenlet g
 RECURSIVE GetSeg(_, _)
@@ -79,12 +85,13 @@ ResumeAll(s, ls) == IF ls = <<>> THEN s ELSE ResumeAll(Finish(s, Head(ls)), Tail
 
 Install(s) ==
   /\ refc' = s.refc /\ next' = s.next /\ conn' = s.conn /\ gl' = s.gl /\ runq' = s.runq
+  /\ infl' = s.infl
   /\ LET f == EvFold(abs, "ok", s.evs) IN
        /\ abs' = f.a
        /\ viol' = IF viol = "ok" THEN f.chk ELSE viol
 
 Init ==
-  /\ refc = 0 /\ next = 0 /\ conn = <<>> /\ gl = <<>> /\ runq = <<>>
+  /\ refc = 0 /\ next = 0 /\ conn = <<>> /\ gl = <<>> /\ runq = <<>> /\ infl = {}
   /\ nopen = 0 /\ nclose = 0 /\ nfail = 0
   /\ abs = A0("singleton")
   /\ viol = "ok"
@@ -145,6 +152,18 @@ Die(c) ==
                         !.evs = <<E("Die", c, 0, TRUE)>>])
   /\ UNCHANGED <<nopen, nclose>>
 
+\* The environment answers request r held on connection c (an error if c is dead, possibly long
+\* after c died).  The response unwinds r's sink stack synchronously: the pool's frame runs
+\* PoolSink.AsyncProcessResponse -> _Release(c) and passes the message on.
+Respond(r, c) ==
+  /\ [r |-> r, c |-> c] \in infl
+  /\ LET s0 == [St EXCEPT !.infl = @ \ {[r |-> r, c |-> c]},
+                          !.evs = <<E("Resp", c, r, conn[c].st # "Closed")>>]
+     IN Install(IF EagerRelease /\ s0.next # 0 /\ conn[c].st = "Closed"
+                THEN [s0 EXCEPT !.conn[s0.next].sub = FALSE, !.next = 0]
+                ELSE s0)
+  /\ UNCHANGED <<nopen, nclose, nfail>>
+
 RunTask ==
   /\ runq # <<>>
   /\ LET t == Head(runq)
@@ -160,6 +179,7 @@ RunTask ==
 Next == \/ HOpen \/ HClose \/ Request \/ RunTask
         \/ \E c \in 1..MaxConn, ok \in BOOLEAN : OpenDone(c, ok)
         \/ \E c \in 1..MaxConn : Die(c)
+        \/ \E r \in 1..MaxReq, c \in 1..MaxConn : Respond(r, c)
 
 Spec == Init /\ [][Next]_vars
 
